@@ -247,6 +247,7 @@ def cmd_check(prop, tier, nruns=None, survey=False):
                                             'counted and multiplied by 16 (0 for worlds without a '
                                             'per-step reference state: C03, C04, C08, C16, C17)'),
             'fault_fired': {k[6:]: v for k, v in sorted(stats.items()) if k.startswith('fault:')},
+            'knobs': {k[5:]: v for k, v in sorted(stats.items()) if k.startswith('knob:')},
             'probes': {k[6:]: v for k, v in sorted(stats.items()) if k.startswith('probe:')},
             'ops': {k[3:]: v for k, v in sorted(stats.items()) if k.startswith('op:')},
             'outcomes': {k[4:]: v for k, v in sorted(stats.items()) if k.startswith('out:')},
